@@ -27,7 +27,12 @@ func ellipsis(str []byte, length int) []byte {
 		if len(str) < 3 || length < 3 {
 			return []byte("...")
 		}
-		return append(bytes.TrimSpace(str[0:length-3]), '.', '.', '.')
+		// do not append in place: the trimmed slice shares the caller's backing array
+		trimmed := bytes.TrimSpace(str[0 : length-3])
+		output := make([]byte, 0, len(trimmed)+3)
+		output = append(output, trimmed...)
+
+		return append(output, '.', '.', '.')
 	}
 
 	return str
